@@ -31,10 +31,6 @@ func max(a, b int) int {
 }
 
 func Render(w io.Writer, tm *t.Map, src []t.Token, comments []string) (err error) {
-	if len(src) == 0 {
-		return nil
-	}
-
 	const maxIndent = 0xFFFF
 	indent := 0
 	buf := make([]byte, 0, 1024)
@@ -43,7 +39,13 @@ func Render(w io.Writer, tm *t.Map, src []t.Token, comments []string) (err error
 	inStruct := false
 	varNameLength := uint32(0)
 
-	prevLine := src[0].Line - 1
+	// A source with no tokens can still have comments, which are printed after
+	// the loop. Starting prevLine at or beyond every comment's line means that,
+	// as for comments before the first token, no leading blank line is printed.
+	prevLine := uint32(len(comments))
+	if len(src) > 0 {
+		prevLine = src[0].Line - 1
+	}
 	prevLineHanging := false
 
 	for len(src) > 0 {
